@@ -446,18 +446,32 @@ def run(ctx):
     souts = read_jsonl(os.path.join(ctx.work, "c10_out.jsonl"))
     touts = read_jsonl(os.path.join(ctx.work, "c10_tree_out.jsonl"))
     routs = read_jsonl(os.path.join(ctx.work, "c10_race_out.jsonl"))
-    if rc != 0 or len(souts) != len(seq_cases) or len(touts) != len(tree_cases) or not routs:
+    any_hung = any(o.get("hung") for o in souts) or any(r.get("err", "").startswith("hung") for r in routs)
+    if (rc != 0 and not any_hung) or len(souts) != len(seq_cases) or len(touts) != len(tree_cases) or not routs:
         ctx.tie_broken("go-harness actor death watch (TestVerifC10*)", out)
     sby = {o["id"]: o for o in souts}
     tby = {o["id"]: o for o in touts}
 
     # ---- oracle on the sequences
     reported = {}
+    n_skipped = 0
     restart_races = 0
     seq_pairs = []
     for c in seq_cases:
         o = sby.get(c["id"])
         if o is None:
+            continue
+        if o.get("skipped"):
+            n_skipped += 1
+            continue
+        if o.get("hung"):
+            k = o.get("hung_op", -1)
+            if reported.get("hung", 0) < 2:
+                reported["hung"] = reported.get("hung", 0) + 1
+                ctx.violation("watch:operation-never-returns",
+                              "operations %s: operation %d (%s): %s within %s ms; watchers of the actors involved can no longer be told" %
+                              (fmt_ops(c["ops"][:k + 1]), k, fmt_ops([c["ops"][k]]) if 0 <= k < len(c["ops"]) else "?", o.get("hung_how", ""), os.environ.get("VERIF_C10_PATIENCE_MS", "10000")),
+                              {"driver": "go/inpkg/actor/zz_verif_C10_test.go TestVerifC10Seq", "case": c, "observed": o})
             continue
         if o.get("err") or len(o["steps"]) != len(c["ops"]) + 1:
             ctx.tie_broken("go-harness sequence did not complete", {"case": c, "err": o.get("err")})
@@ -481,9 +495,15 @@ def run(ctx):
                 ctx.violation(sig, "operations %s: %s" % (fmt_ops(cc["ops"]), text),
                               {"driver": "go/inpkg/actor/zz_verif_C10_test.go TestVerifC10Seq", "case": cc, "observed": oo})
 
+    if n_skipped:
+        ctx.notes.append("%d sequence cases were not run because an earlier case hung and was abandoned" % n_skipped)
     # ---- oracle on the races
     race_hist = {}
     for r in routs:
+        if r.get("err", "").startswith("hung"):
+            ctx.violation("watch:operation-never-returns", "concurrent run, stop path %s: %s" % (r["path"], r["err"]),
+                          {"driver": "go/inpkg/actor/zz_verif_C10_test.go TestVerifC10Race", "round": r})
+            continue
         if r.get("err"):
             ctx.tie_broken("go-harness race round did not complete", r)
             continue
